@@ -338,6 +338,28 @@ def main():
             res = run_bldfm_multitower(cfgs) if strat == "serial" else run_bldfm_parallel(cfgs, max_workers=2, parallel_over=strat)
             nruns += 1
             compare(chk, res, refs_s, cfgs, sc, "%s series, %s" % (kind, strat))
+    # a user-supplied flux map through the serial drivers of a configuration that ALSO asks for worker processes
+    # (parallel.max_workers: 2): every entry is the single run with that map
+    from bldfm import run_bldfm_single
+
+    cfg_map = make_config(2, 2, solver_extra={"footprint": False})
+    try:
+        cfg_map.parallel.max_workers = 2
+    except Exception:
+        pass
+    fmap = np.random.default_rng(seed() + 77).uniform(0.0, 2.0, size=(cfg_map.domain.ny, cfg_map.domain.nx))
+    refs_map = {(t_.name, s_): run_bldfm_single(cfg_map, t_, met_index=s_, surface_flux=fmap) for t_ in cfg_map.towers for s_ in range(cfg_map.met.n_timesteps)}
+    for drv in ("multitower", "timeseries"):
+        sc = {"kind": "supplied flux map, max_workers 2", "driver": drv}
+        chk.case(json.dumps(sc))
+        nruns += 1
+        if drv == "multitower":
+            res = run_bldfm_multitower(cfg_map, surface_flux=fmap)
+        else:
+            from bldfm import run_bldfm_timeseries
+
+            res = {t_.name: run_bldfm_timeseries(cfg_map, t_, surface_flux=fmap) for t_ in cfg_map.towers}
+        compare(chk, res, refs_map, cfg_map, sc, "supplied flux map through run_bldfm_%s (max_workers 2)" % drv)
     # result caching on: a directory pre-populated by runs with other levels / another grid must not change anything
     work = os.getcwd()
     shutil.rmtree(os.path.join(work, ".bldfm_cache"), ignore_errors=True)
